@@ -1,15 +1,20 @@
 (* C15 — batched (loader-driven) authorization equals ordinary authorization.
-   Model: model/Batched.v (loader loop of is_authorized_batched; the partial evaluator is abstract).
-   Lemmas: proofs/BatchedProofs.v.
+   Model: model/Batched.v (loader loop of is_authorized_batched as of /repo 6dde98e; the partial
+   evaluator is abstract).  Lemmas: proofs/BatchedProofs.v.
 
    Hypotheses (trusted base of C15, each one names the code fact it stands for):
-     reinterp_stable      Evaluator::interpret returns Residual::Concrete / Residual::Error unchanged
-     loader_no_collision  the loader's answer never contains an id already in the partial store
-                          (true of TestEntityLoader: exactly the requested ids, which were filtered)
+     reinterp_stable         Evaluator::interpret returns Residual::Concrete / Residual::Error unchanged
+     partial_needs_unloaded  a residual that is still Partial after interpretation over the partial store
+                             st mentions a literal uid that st does not contain
+     lits_in_universe        interpretation over a store the loader produced only mentions uids of the
+                             universe (uids of store + request + policies); rs0_in_universe: policies too
+     loader_answers / loader_in_universe   every requested id is answered; anything else the loader
+                             returns is a uid of the universe  (PROVED for loader_of and loader_all)
+     U_eqb_spec              the uid equality test is equality
      sound_class / sound_reinterp / good_*   residual soundness of TPE over partial stores obtained
-                          from the full store through the loader (this is property C14)
-   Open (not proved here): c15_progress (budget > number of distinct uids always decides); it is
-   checked on the implementation by the oracle of vp/props/c15.py only. *)
+                             from the full store through the loader (this is property C14)
+   chain_progress (proofs/BatchedProofs.v) instantiates ALL interp hypotheses with the pointer-chain
+   evaluator, so they are jointly satisfiable. *)
 From Coq Require Import List Bool ZArith String.
 Import ListNotations.
 From Cedar Require Import Base Sexp Syntax Authz Batched BatchedProofs.
@@ -27,36 +32,72 @@ Section C15.
   Variable l : loader U D.
 
   Notation batchedX := (batched U U_eqb D empty_entity residual classify lits reinterp rs0).
+  Notation batched_fullX := (batched_full U U_eqb D empty_entity residual classify lits reinterp rs0).
+
+  (* the only non-decision outcome is InsufficientIterations (for EVERY loader, since 6dde98e) ... *)
+  Theorem c15_insufficient : forall n, batchedX l n = BInsufficient \/ exists d, batchedX l n = BOk d.
+  Proof. intro n. destruct (batchedX l n); [right; eauto|left; reflexivity]. Qed.
+
+  (* ... it is reported only when all n iterations were used (n loader calls were made) ... *)
+  Theorem c15_insufficient_uses_budget : forall n,
+    batchedX l n = BInsufficient -> length (snd (batched_fullX l n)) = n.
+  Proof. apply insufficient_uses_budget. Qed.
+
+  (* ... and the loader is never called more often than the budget *)
+  Theorem c15_calls_le_budget : forall n, (length (snd (batched_fullX l n)) <= n)%nat.
+  Proof. apply calls_le_budget. Qed.
+
+  (* an entity the loader returns although it is already loaded is ignored (the fix of finding F-1) *)
+  Theorem c15_returned_again_ignored : forall st u e ans,
+    loaded U U_eqb D st u = true ->
+    add_all U U_eqb D empty_entity st ((u, e) :: ans) = add_all U U_eqb D empty_entity st ans.
+  Proof. apply add_all_ignores_loaded. Qed.
 
   Hypothesis reinterp_stable : forall st, stable residual classify (reinterp st).
 
-  (* a decision obtained with budget n is obtained with every larger budget (unless the loader
-     collides with the loaded set, which is excluded below) *)
-  Theorem c15_monotone_weak : forall n k d,
-    batchedX l n = BOk d -> batchedX l (n + k) = BOk d \/ batchedX l (n + k) = BErrDuplicate.
-  Proof. apply monotone_weak; assumption. Qed.
-
-  Hypothesis loader_no_collision :
-    forall st rs, add_all U U_eqb D empty_entity st (l (to_load U U_eqb D residual lits st rs)) <> None.
-
+  (* a decision obtained with budget n is obtained with every larger budget *)
   Theorem c15_monotone : forall n k d, batchedX l n = BOk d -> batchedX l (n + k) = BOk d.
   Proof. apply monotone; assumption. Qed.
 
-  (* the only non-decision outcome is InsufficientIterations ... *)
-  Theorem c15_insufficient : forall n, batchedX l n = BInsufficient \/ exists d, batchedX l n = BOk d.
-  Proof. apply insufficient_only; assumption. Qed.
+  (* budget > number of uids of the universe => a decision *)
+  Variable Univ : list U.
+  Variable good : pstore U D -> Prop.
+  Hypothesis U_eqb_spec : forall a b, U_eqb a b = true <-> a = b.
+  Hypothesis good_nil : good [].
+  Hypothesis good_add : forall st ids, good st -> good (add_all U U_eqb D empty_entity st (l ids)).
+  Hypothesis partial_needs_unloaded : forall st r,
+    classify (reinterp st r) = RPartial -> exists u, In u (lits (reinterp st r)) /\ loaded U U_eqb D st u = false.
+  Hypothesis lits_in_universe : forall st r, good st -> incl (lits r) Univ -> incl (lits (reinterp st r)) Univ.
+  Hypothesis rs0_in_universe : forall er, In er rs0 -> incl (lits (snd er)) Univ.
+  Hypothesis loader_answers : forall ids u, In u ids -> In u (map fst (l ids)).
+  Hypothesis loader_in_universe : forall ids u, In u (map fst (l ids)) -> In u ids \/ In u Univ.
 
-  (* ... and it is reported only when all n iterations were used (n loader calls were made) *)
-  Theorem c15_insufficient_uses_budget : forall n,
-    batchedX l n = BInsufficient ->
-    length (snd (batched_full U U_eqb D empty_entity residual classify lits reinterp rs0 l n)) = n.
-  Proof. apply insufficient_uses_budget; assumption. Qed.
+  Theorem c15_progress : forall n, (length Univ < n)%nat -> exists d, batchedX l n = BOk d.
+  Proof. eapply progress; eassumption. Qed.
 End C15.
 
-Print Assumptions c15_monotone_weak.
-Print Assumptions c15_monotone.
 Print Assumptions c15_insufficient.
 Print Assumptions c15_insufficient_uses_budget.
+Print Assumptions c15_calls_le_budget.
+Print Assumptions c15_returned_again_ignored.
+Print Assumptions c15_monotone.
+Print Assumptions c15_progress.
+
+(* the loader hypotheses of c15_progress hold of TestEntityLoader (loader_of) and of a loader that
+   returns the whole store every time (loader_all) *)
+Theorem c15_loader_of_ok : forall U U_eqb D (Univ : list U) (es : list (U * D)),
+  (forall ids u, In u ids -> In u (map fst (loader_of U U_eqb D es ids))) /\
+  (forall ids u, In u (map fst (loader_of U U_eqb D es ids)) -> In u ids \/ In u Univ).
+Proof. intros. split; [apply loader_of_answers|apply loader_of_in_universe]. Qed.
+
+Theorem c15_loader_all_ok : forall U U_eqb D (Univ : list U) (es : list (U * D)),
+  incl (map fst es) Univ ->
+  (forall ids u, In u ids -> In u (map fst (loader_all U U_eqb D es ids))) /\
+  (forall ids u, In u (map fst (loader_all U U_eqb D es ids)) -> In u ids \/ In u Univ).
+Proof. intros. split; [apply loader_all_answers|apply loader_all_in_universe; assumption]. Qed.
+
+Print Assumptions c15_loader_of_ok.
+Print Assumptions c15_loader_all_ok.
 
 Section C15Agree.
   Variable U : Type.
@@ -72,7 +113,7 @@ Section C15Agree.
   Variable conc : residual -> rclass.
   Variable good : pstore U D -> Prop.
   Hypothesis good_nil : good [].
-  Hypothesis good_add : forall st ids st', good st -> add_all U U_eqb D empty_entity st (l ids) = Some st' -> good st'.
+  Hypothesis good_add : forall st ids, good st -> good (add_all U U_eqb D empty_entity st (l ids)).
   Hypothesis sound_class : forall r, classify r <> RPartial -> conc r = classify r.
   Hypothesis sound_reinterp : forall st r, good st -> conc (reinterp st r) = conc r.
 
@@ -82,21 +123,28 @@ Section C15Agree.
   Theorem c15_agree_partial : forall n d,
     batched U U_eqb D empty_entity residual classify lits reinterp rs0 l n = BOk d ->
     d = cdecide residual conc rs0.
-  Proof.
-    intros n d H. eapply agree; eauto.
-  Qed.
+  Proof. intros n d H. eapply agree; eauto. Qed.
 End C15Agree.
 
 Print Assumptions c15_agree_partial.
 
 (* ---------------------------------------------------------------- the hypotheses are satisfiable:
-   the pointer-chain instance of model/Batched.v *)
+   c15_progress for the pointer-chain instance of model/Batched.v, every interp hypothesis proved *)
+Theorem c15_progress_chain : forall (es : list (Z * cdata)) (Univ : list Z) rs0,
+  (forall u fl v, lookup Z Z.eqb cdata es u = Some (fl, Some v) -> In v Univ) ->
+  (forall er, In er rs0 -> incl (c_lits (snd er)) Univ) ->
+  forall n, (length Univ < n)%nat -> exists d, c_batched rs0 es n = BOk d.
+Proof. intros es Univ rs0 H1 H2. apply chain_progress; assumption. Qed.
+
+Print Assumptions c15_progress_chain.
+
 Example c15_chain_stable : forall st, stable cres c_classify (c_reinterp st).
-Proof. intros st r H. destruct r; simpl in *; [reflexivity|congruence]. Qed.
+Proof. apply c_stable. Qed.
 
 (* store 1 -> 2 -> 3 (flag true); entity 4 does not exist; policies: permit when 1.next.next.flag,
-   forbid when 4.next.flag (dangling reference: evaluation error, not satisfied) *)
-Definition ex_store : list (Z * cdata) := [(1, (false, Some 2)); (2, (false, Some 3)); (3, (true, None))]%Z.
+   forbid when 4 has next && 4.next.flag (4 is missing = empty: false) *)
+Definition ex_store : list (Z * cdata) :=
+  [(1, (Some false, Some 2)); (2, (Some false, Some 3)); (3, (Some true, None))]%Z.
 Definition ex_pols : list (effect * cres) := [(Permit, CChain 1%Z 2); (Forbid, CChain 4%Z 1)].
 
 Example c15_chain_budgets :
@@ -106,25 +154,20 @@ Proof. vm_compute. reflexivity. Qed.
 
 (* every hop needs one more iteration: a chain of 5 hops decides with budget 6, not 5 *)
 Example c15_chain_five_hops :
-  let es := [(1, (false, Some 2)); (2, (false, Some 3)); (3, (false, Some 4)); (4, (false, Some 5));
-             (5, (false, Some 6)); (6, (true, None))]%Z in
+  let es := [(1, (Some false, Some 2)); (2, (Some false, Some 3)); (3, (Some false, Some 4));
+             (4, (Some false, Some 5)); (5, (Some false, Some 6)); (6, (Some true, None))]%Z in
   (c_batched [(Permit, CChain 1%Z 5)] es 5, c_batched [(Permit, CChain 1%Z 5)] es 6) = (BInsufficient, BOk Allow).
 Proof. vm_compute. reflexivity. Qed.
 
-(* a missing principal is an empty entity: permit when 7.flag with 7 absent is decided Deny *)
+(* a missing principal is an empty entity: `7.flag` with 7 absent is an evaluation error => Deny *)
 Example c15_chain_missing : c_batched [(Permit, CChain 7%Z 0)] ex_store 1 = BOk Deny.
 Proof. vm_compute. reflexivity. Qed.
 
-(* REFUTATION of "a loader may return more than requested": a loader that answers the requested
-   ids with the store's data and ALSO returns entity 3 every time (allowed by the EntityLoader
-   documentation: "Loading more entities than requested is allowed") makes the loop fail with a
-   Duplicate error in the second iteration — neither a decision nor InsufficientIterations.
-   Replayed on the implementation by the *_any loader variants of vp/props/c15.py. *)
-Theorem c15_extra_duplicate_refuted :
-  exists (es : list (Z * cdata)) (rs : list (effect * cres)) (n : nat),
-    let l := fun ids => (loader_of Z Z.eqb cdata es ids ++ [(3%Z, lookup Z Z.eqb cdata es 3%Z)])%list in
-    batched Z Z.eqb cdata c_empty cres c_classify c_lits c_reinterp rs l n = BErrDuplicate /\
-    batched Z Z.eqb cdata c_empty cres c_classify c_lits c_reinterp rs (loader_of Z Z.eqb cdata es) n = BOk Allow.
-Proof. exists ex_store, ex_pols, 3%nat. vm_compute. split; reflexivity. Qed.
-
-Print Assumptions c15_extra_duplicate_refuted.
+(* the witness of finding F-1 after the fix: a loader that also returns entity 3 every time now gives
+   the same decision as the exact loader (before /repo 6dde98e the second iteration failed with a
+   Duplicate error; the check still reports that on a tree without the fix) *)
+Example c15_extra_entity_same_decision :
+  let l := fun ids => (loader_of Z Z.eqb cdata ex_store ids ++ [(3%Z, lookup Z Z.eqb cdata ex_store 3%Z)])%list in
+  fst (c_batched_full ex_pols l 3) = BOk Allow /\ c_batched ex_pols ex_store 3 = BOk Allow /\
+  fst (c_batched_full ex_pols (loader_all Z Z.eqb cdata ex_store) 1) = BOk Allow.
+Proof. vm_compute. repeat split; reflexivity. Qed.
